@@ -21,7 +21,7 @@ RULE = ("histories over a pool of 2 parsers (thorough: 3) and the alphabet {cons
         "written in the parser's OWN spelling, optionally naming config files; invalid argv = unknown option, non-int, missing value, "
         "bad choice (the SET-UP fails), bad/short/repeated tuple, field of the other subgroup, stray word, missing or extension-less file, foreign "
         "spelling, --help/-h); plus the standing witnesses of the known defects, the Example of Properties/C08.v and 150 (thorough "
-        "2000) random histories of length 5-10 (thorough 5-12) and 80 (thorough 1200) histories of 2-3 parsers that each get a dataclass with its own Enum class and are set up and parsed one after the other. EACH HISTORY RUNS IN ITS OWN PROCESS; every parse is compared with "
+        "2000) random histories of length 5-10 (thorough 5-12) and 80 (thorough 1200) histories of 2-3 parsers that each get a dataclass with its own Enum class - or all the SAME dataclass (subgroup / tuple / plain) - and are set up and parsed one after the other. EACH HISTORY RUNS IN ITS OWN PROCESS; every parse is compared with "
         "the model AND with a fresh-process run of the same definition + argv (the property's own oracle). Non-trivial = a parse "
         "preceded, since its parser was constructed, by another parse/help of that parser, a late add_arguments or the construction "
         "of another parser; distinct by full case.")
@@ -307,7 +307,7 @@ def random_cfg(rng):
     return {"dash": rng.choice(DASH), "gen": rng.choice(GEN), "nm": rng.choice(NM)}
 
 
-def concretise(rng, abstract, enum_bias=False):
+def concretise(rng, abstract, enum_bias=False, force_a=None):
     """abstract = [(symbol, slot)], symbol in C A PV PI H F -> concrete ops (ops that cannot be made concrete are dropped)"""
     defs = {}
     ops = []
@@ -334,11 +334,13 @@ def concretise(rng, abstract, enum_bias=False):
             free = [d for d in ("a", "b") if d not in used]
             if not free:
                 continue
-            dest = "a" if ("a" in free and (enum_bias or len(free) == 1 or rng.random() < 0.8)) else free[-1]
+            dest = "a" if ("a" in free and (enum_bias or force_a or len(free) == 1 or rng.random() < 0.8)) else free[-1]
             cname = rng.choice(A_CLASSES if dest == "a" else B_CLASSES)
             used_e = [c for d in defs.values() for c, _ in d[2] if c in E_CLASSES]
             if dest == "a" and rng.random() < (1.0 if enum_bias else 0.85 if used_e else 0.3):
                 cname = rng.choice(E_CLASSES)       # once one Enum class is around, the others tend to follow
+            if dest == "a" and force_a:
+                cname = force_a
             if dest == "b" and cfg.get("cr") == "NONE" and rng.random() < 0.6:
                 cname = "L3"
             adds.append((cname, dest))
@@ -421,6 +423,9 @@ WITNESSES = [
     [["construct", 0, dict(DEFAULT_CFG), False], ["add", 0, "E6", "a"], ["parse", 0, ["--modes", "RED"]],
      ["construct", 1, dict(DEFAULT_CFG), False], ["add", 1, "E2", "a"], ["parse", 1, ["--modes", "SAFE", "--my_x", "3"]],
      ["parse", 1, ["--modes", "RED"]], ["parse", 0, ["--modes", "BLUE", "RED"]]],
+    # the config_path attribute of the result is this call's (repaired by /repo 0277e53)
+    [["construct", 0, dict(DEFAULT_CFG), True], ["add", 0, "K1", "a"], ["parse", 0, ["--config_path", "c1.json", "--my_x", "3"]],
+     ["parse", 0, ["--my_x", "3"]], ["parse", 0, ["--config_path", "--my_x", "3"]]],
     # benign: three parsers interleaved (the Example of Properties/C08.v)
     [["construct", 0, {"dash": "DASH", "gen": "FLAT", "nm": "DEFAULT"}, False], ["add", 0, "K2", "a"], ["parse", 0, ["--my-x", "4"]],
      ["construct", 1, dict(DEFAULT_CFG), True], ["add", 1, "K4", "a"], ["add", 1, "L1", "b"],
@@ -457,7 +462,7 @@ def gen(tier, seed):
         if ops:
             cases.append({"ops": ops})
     # several parsers whose dataclasses carry their own Enum classes, set up and parsed one after the other
-    for _ in range(80 if tier == "quick" else 1200):
+    for _ in range(120 if tier == "quick" else 1800):
         h, built = [], 0
         for _ in range(rng.choice([2, 2, 3])):
             slot = rng.randrange(min(nslots, built + 1))
@@ -465,7 +470,10 @@ def gen(tier, seed):
             h += [("C", slot), ("A", slot)] + [(rng.choice(["PV", "PV", "PV", "PI", "H"]), slot) for _ in range(rng.choice([1, 2]))]
         h += [(rng.choice(["PV", "PV", "PI"]), rng.randrange(built)) for _ in range(rng.choice([0, 1, 2]))]
         erng = random.Random(rng.random())
-        ops = concretise(erng, h, enum_bias=True)
+        # ... or that all get the SAME dataclass (same subgroup field, same tuple field): what one parser chose or counted
+        # must not reach the next one
+        same = erng.choice([None, None, "K4", "K4", "K3", "K2"])
+        ops = concretise(erng, h, enum_bias=same is None, force_a=same)
         if ops:
             cases.append({"ops": ops})
     syms = ["C", "A", "A", "PV", "PV", "PV", "PI", "H", "F"]
@@ -535,6 +543,11 @@ def run_impl(cases):
     if cp.returncode != 0:
         raise RuntimeError(f"c08_driver failed rc={cp.returncode}: {cp.stderr[-3000:]}")
     results = json.loads(cp.stdout)
+    if not JUDGE_CONFIG_PATH_ATTR:
+        for res in results:
+            for o in res:
+                if o["r"][0] == "ok" and isinstance(o["r"][1], list):
+                    o["r"][1] = [e for e in o["r"][1] if e[0] != "+config_path"]
     out = []
     for h, oracle in plan:
         fresh = [None if j is None else results[j][-1] for j in oracle]
@@ -563,12 +576,13 @@ def _spelling_differs(h_opts, f_opts):
 #   aliasing: a default_factory container (modes: List[E] = field(default_factory=list)) returned by one parse IS the object
 #             returned by the next parse of the same parser (mutating the first result changes the second)
 #   config_path attribute of the namespace: keeps the value of the first call (the help-only argument is added once)
-JUDGE_ALIASING = False
-JUDGE_CONFIG_PATH_ATTR = False
+JUDGE_ALIASING = False          # NOT a violation of the statement as written (no "mutate a result" in the operation alphabet,
+                                # the values are equal): recorded and counted only
+JUDGE_CONFIG_PATH_ATTR = True   # the `+config_path` entry of a result (repaired by /repo 0277e53) is judged like any other
 
 
 def _extra(o):
-    return [e for e in o.get("extra", []) if JUDGE_CONFIG_PATH_ATTR or e[0] != "config_path"]
+    return o.get("extra", [])
 
 
 def divergences(case, obs):
@@ -605,6 +619,19 @@ def _files_applied(argv):
             if t not in FILES:
                 break
             vals.append(FILES[t]["a"]["my_x"])
+    return vals
+
+
+def _cfg_tokens(argv):
+    """the argument tokens of the last --config_path occurrence"""
+    vals, taking = [], False
+    for t in argv:
+        if t == "--config_path":
+            vals, taking = [], True
+        elif t.startswith("-"):
+            taking = False
+        elif taking:
+            vals.append(t)
     return vals
 
 
@@ -668,6 +695,16 @@ def classify(case, obs, k, why="diverges"):
         if not both_ok and others and any(t.isupper() for t in argv):
             return "enum-registry-shared"
 
+    # (0277e53) only the config_path attribute differs: the history shows the value of the FIRST call of this parser that got
+    # as far as adding the help-only argument, the fresh interpreter this call's
+    if cfgarg and both_ok and diff_keys == ["+config_path"]:
+        attr_of = lambda a: ("list(" + ",".join("path:" + t for t in _cfg_tokens(a)) + ")") if "--config_path" in a else "none"  # noqa: E731
+        firsts = [attr_of(p[2]) for p, q in since if p[0] == "parse" and q["r"] not in (["raise", "FileNotFoundError"], ["raise", "RuntimeError"])]
+        got, fresh_val = dict(map(tuple, r[1]))["+config_path"], dict(map(tuple, f[1]))["+config_path"]
+        if firsts and got == firsts[0] and fresh_val == attr_of(argv):
+            return "config-path-attr-stale"
+        return unexplained
+
     # ---- the set-up / defaults family (#13, #5').  Several of these can act on one parse; each explains ITS share of the
     # difference and needs its own evidence; whatever is left over makes the divergence `unexplained`.
     ids_of = lambda c: {_fid(x) for n, kd, dd in CLASSES[c]  # noqa: E731
@@ -718,7 +755,8 @@ def classify(case, obs, k, why="diverges"):
     # (config files) a.my_x: the history's value is the one the files had established when the set-up ran (frozen) resp. the
     # one an EARLIER call's files left behind (persist); the fresh value is this call's own
     cfg_label = None
-    if cfgarg and both_ok and not any(_fid(t) == "my_x" for t in argv if t.startswith("-")):
+    a_my_x_given = any(t.startswith("-") and _fid(t) == "my_x" and not t.lstrip("-").startswith("b.") for t in argv)
+    if cfgarg and both_ok and not a_my_x_given:
         dflt = [d for c, dst, _ in adds if dst == "a" for n, kd, d in CLASSES[c] if n == "my_x"]
         got, fresh_val = dict(map(tuple, r[1])).get("a.my_x"), dict(map(tuple, f[1])).get("a.my_x")
         own = _files_applied(argv)
@@ -818,8 +856,8 @@ def features(case, obs):
             "last_parse": outs[-1] if outs else "none",
             "verdict": classify(case, obs, d[0][0], d[0][1]).split(":")[0] if d else "independent",
             "aliased_result": any(o.get("aliased") for o in obs["obs"]),
-            "config_path_attr_differs": any(p[0] == "parse" and fr is not None and o.get("extra") != fr.get("extra")
-                                            for p, o, fr in zip(ops, obs["obs"], obs["fresh"]))}
+            "namespace_extra_differs": any(p[0] == "parse" and fr is not None and o.get("extra") != fr.get("extra")
+                                           for p, o, fr in zip(ops, obs["obs"], obs["fresh"]))}
 
 
 def coq_cfg(c):
